@@ -9,7 +9,9 @@ Domain
       shadowing an outer one) declared and used in an inner Schedule;
     * subtree n: a node picked by (category, index) with the categories
       weighted towards scoping nodes (FileContainer, Container, Routine,
-      Loop/If and their body Schedules, directives, any node);
+      Loop/If and their body Schedules, directives, any node); two more
+      subtrees of the same program ("probes") are copied and checked with
+      O1-O3 only (no edits), which amortises the cost of parsing;
     * history: <= 6 edits, each applied to the copy OR to the original
       (inside n): rename / add a symbol, change a symbol's datatype or
       initial value, change an argument's intent (in place or by replacing
@@ -52,8 +54,9 @@ LEVEL = "exploration"
 RULE = ("Hypothesis draws (declaration-heavy gen_fortran module, <=2 "
         "preparation steps [OMP/ACC transformation or inner-scope local "
         "symbol], subtree category+index weighted towards Container/Routine/"
-        "Loop/If/Schedule/directive nodes, history of 1-6 edits each applied "
-        "to the copy or to the original); a case is non-trivial when the "
+        "Loop/If/Schedule/directive nodes, 2 further subtrees checked without "
+        "edits, history of 1-6 edits each applied to the copy or to the "
+        "original inside the subtree); a case is non-trivial when the "
         "copied subtree contains a scoping node with a local symbol that is "
         "referenced inside the subtree and >=1 edit was applied successfully; "
         "distinct = hash of (source, preparation, target, history)")
@@ -168,6 +171,10 @@ def node_sites(node, out, force=None, label=None):
             out.append((force or _SITE_OF_ATTR.get(key, "attr"), where, val))
         elif isinstance(val, DataType):
             type_sites(val, force or "node_type", where, out)
+        elif isinstance(val, (list, tuple)):
+            for item in val:
+                if isinstance(item, Symbol):
+                    out.append((force or "attr", where, item))
 
 
 def symbol_sites(sym, out):
@@ -192,8 +199,8 @@ def symbol_sites(sym, out):
             out.append(("decl_generic", f"{name}:routines", rinfo.symbol))
 
 
-def table_names(table):
-    return [sym.name.lower() for sym in table.symbols]
+def describe(sym):
+    return f"{type(sym).__name__} '{getattr(sym, 'name', '?')}'"
 
 
 # ---------------------------------------------------------------------------
@@ -366,8 +373,8 @@ def apply_edit(tree, num, kind, pa, pb):
     # pylint: disable=import-outside-toplevel,too-many-locals
     # pylint: disable=too-many-branches,too-many-statements
     from psyclone.psyir.nodes import (Assignment, Call, DataNode, Literal,
-                                      Loop, Node, Range, Reference, Routine,
-                                      Schedule, Statement)
+                                      Loop, Node, Range, Reference, Schedule,
+                                      Statement)
     from psyclone.psyir.symbols import (ArgumentInterface, ArrayType,
                                         ContainerSymbol, DataSymbol,
                                         INTEGER_TYPE, REAL_TYPE)
@@ -383,7 +390,8 @@ def apply_edit(tree, num, kind, pa, pb):
                 return "none", info
             table, sym = cands[pa % len(cands)]
             info["symbol"] = sym.name.lower()
-            table.rename_symbol(sym, f"c15r{num}_{pb % 3}")
+            info["new_name"] = f"c15r{num}_{pb % 3}"
+            table.rename_symbol(sym, info["new_name"])
         elif kind == "add_symbol":
             tables = inside_tables(tree)
             if not tables:
@@ -495,8 +503,6 @@ def apply_edit(tree, num, kind, pa, pb):
             HoistTrans().apply(first_valid(HoistTrans(), cands, pa))
         else:
             raise HarnessError(f"unknown edit {kind}")
-        # keep pylint quiet about unused imports used only in predicates
-        _ = Routine
         return "ok", info
     except HarnessError:
         raise
@@ -597,28 +603,16 @@ def features(node):
     }, owner, scopes
 
 
-def check_case(case, report, note=None):
-    """Execute one case.  `report(bucket, extra, msg)` is called for every
-    oracle failure (it may raise).  `note(kind, value)` receives
-    classification events.  Returns a summary dict."""
+def copy_oracles(orig, report, override=None):
+    """O1-O3 for c = orig.copy().  Returns (copy | None, features, fail)
+    where fail(bucket, msg, more) reports a failure once per bucket."""
     # pylint: disable=import-outside-toplevel,too-many-locals
     # pylint: disable=too-many-branches,too-many-statements
-    from psyclone.psyir.nodes import Container, Node, Routine, ScopingNode
-    note = note or (lambda *a: None)
-    world = World(case)
-    for (name, _), res in zip(case["prep"], world.prep_results):
-        note("label", f"prep:{name}:{res.split(':')[0]}")
-    root, orig = world.root, world.node
-    note("label", f"target:{type(orig).__name__}")
+    from psyclone.psyir.nodes import Node, ScopingNode
     feat, owner, scopes_n = features(orig)
     extra = {"feat": feat}
-    snap_n = lsnap(orig)
-    try:
-        copy = orig.copy()
-    except Exception as err:        # pylint: disable=broad-except
-        report(f"O1:copy_raises:{type(orig).__name__}:{psy.exc_key(err)}",
-               extra, f"{type(orig).__name__}.copy() raised {err!r}")
-        return {"nontrivial": False, "edits_ok": 0}
+    if override:
+        extra.update(override)
     seen = set()
 
     def fail(bucket, msg, more=None):
@@ -629,6 +623,14 @@ def check_case(case, report, note=None):
         if more:
             ext.update(more)
         report(bucket, ext, msg)
+
+    snap_n = lsnap(orig)
+    try:
+        copy = orig.copy()
+    except Exception as err:        # pylint: disable=broad-except
+        fail(f"O1:copy_raises:{type(orig).__name__}:{psy.exc_key(err)}",
+             f"{type(orig).__name__}.copy() raised {err!r}")
+        return None, feat, fail
 
     # ---- O1: equal ------------------------------------------------------
     structural = True
@@ -699,7 +701,8 @@ def check_case(case, report, note=None):
                     fail(f"O3:{site}:outer_not_shared",
                          f"{where} {label}: '{name}' is declared outside "
                          f"the copied subtree but the copy uses another "
-                         f"object ({sym_c!r})", {"site": site, "use": label})
+                         f"object ({describe(sym_c)})",
+                         {"site": site, "use": label})
                 continue
             ctab = scopes_c[num].symbol_table
             try:
@@ -714,8 +717,9 @@ def check_case(case, report, note=None):
                  f"{where} {label}: '{name}' is declared in a "
                  f"{type(scopes_n[num]).__name__} inside the copied "
                  f"{type(orig).__name__} but the copy's use is "
-                 f"{'the original symbol object' if sym_c is sym_n else repr(sym_c)}"
-                 f" (copy's own symbol: {own!r})",
+                 f"{'the original symbol object' if sym_c is sym_n else describe(sym_c)}"
+                 f" (the copy's own table "
+                 f"{'has no such symbol' if own is None else 'has its own ' + describe(own)})",
                  {"site": site, "use": label, "mode": mode,
                   "used_symbol": name.lower()})
 
@@ -741,9 +745,34 @@ def check_case(case, report, note=None):
                     compare_sites(sites_n, sites_c,
                                   f"symbol table of {type(snode).__name__}")
 
+    return copy, feat, fail
+
+
+def check_case(case, report, note=None):
+    """Execute one case.  `report(bucket, extra, msg)` is called for every
+    oracle failure (it may raise).  `note(kind, value)` receives
+    classification events.  Returns a summary dict."""
+    # pylint: disable=import-outside-toplevel,too-many-locals
+    from psyclone.psyir.nodes import Container, Routine
+    note = note or (lambda *a: None)
+    world = World(case)
+    for (name, _), res in zip(case["prep"], world.prep_results):
+        note("label", f"prep:{name}:{res}")
+    root, orig = world.root, world.node
+    # ---- additional subtrees of the same program: O1-O3 only ------------
+    for cat, idx in case.get("probes", []):
+        node = pick_target(root, cat, idx)
+        note("label", f"probe:{type(node).__name__}")
+        copy_oracles(node, report, {"target": [cat, idx], "edits": [],
+                                    "probes": []})
+    # ---- the main subtree -------------------------------------------------
+    note("label", f"target:{type(orig).__name__}")
+    copy, feat, fail = copy_oracles(orig, report)
+    if copy is None:
+        return {"nontrivial": False, "edits_ok": 0, "feat": feat}
+
     # ---- O4: edit histories ----------------------------------------------
     writable = isinstance(copy, (Container, Routine))
-    world.copy = copy
 
     def state(side):
         if side == "orig":
@@ -752,6 +781,8 @@ def check_case(case, report, note=None):
 
     cache = {"orig": state("orig"), "copy": state("copy")}
     edits_ok = 0
+    # current name -> name at copy time, per side (for the classifiers)
+    alias = {"orig": {}, "copy": {}}
     for num, (side, kind, pa, pb) in enumerate(case["edits"]):
         tree = copy if side == "copy" else orig
         other = "orig" if side == "copy" else "copy"
@@ -761,6 +792,11 @@ def check_case(case, report, note=None):
             continue
         if status == "ok":
             edits_ok += 1
+        if "symbol" in info:
+            info["symbol_at_copy"] = alias[side].get(info["symbol"],
+                                                     info["symbol"])
+            if kind == "rename" and status == "ok":
+                alias[side][info["new_name"]] = info["symbol_at_copy"]
         info.update(index=num, side=side, status=status)
         after = state(other)
         before = cache[other]
@@ -780,7 +816,6 @@ def check_case(case, report, note=None):
                  f"[{status}] changed the {what} - {where}",
                  {"failed_edit": info})
             cache[other] = after
-        cache[side] = None
         cache[side] = state(side)
     note("label", "copy_text_compared" if writable and isinstance(
         cache["copy"]["text"], str) and not cache["copy"]["text"].startswith(
@@ -818,7 +853,7 @@ def cls_property_refs(case):
         linked = {name for names in links.values() for name in names}
         return (edit.get("kind") == "rename" and edit.get("side") == "orig"
                 and edit.get("status") == "ok"
-                and edit.get("symbol") in linked)
+                and edit.get("symbol_at_copy") in linked)
     return False
 
 
@@ -856,13 +891,16 @@ def cases(draw):
     prep = [[draw(st.sampled_from(PREPS)), draw(st.integers(0, 11))]
             for _ in range(nprep)]
     target = [draw(st.sampled_from(CATEGORIES)), draw(st.integers(0, 23))]
+    probes = [[draw(st.sampled_from(CATEGORIES)), draw(st.integers(0, 23))]
+              for _ in range(2)]
     nedits = draw(st.integers(1, 6))
     edits = [[draw(st.sampled_from(["copy", "orig"])),
               draw(st.sampled_from(EDITS)),
               draw(st.integers(0, 40)), draw(st.integers(0, 11))]
              for _ in range(nedits)]
     return {"source": prog.module_source, "prep": prep, "target": target,
-            "edits": edits, "features": sorted(prog.features)}
+            "probes": probes, "edits": edits,
+            "features": sorted(prog.features)}
 
 
 def run(ctx):
@@ -894,7 +932,7 @@ def run(ctx):
     ctx.hyp(prop, cases(), max_examples=ctx.scale(2000, 60000),
             shrink=not os.environ.get("C15_NOSHRINK"),   # development aid
             key=lambda case: [case["source"], case["prep"], case["target"],
-                              case["edits"]])
+                              case["probes"], case["edits"]])
 
 
 def replay(case):
@@ -916,6 +954,7 @@ def replay(case):
             found.append(f"[{bucket}] {msg}")
 
     base = {"source": case["source"], "prep": case.get("prep", []),
-            "target": case["target"], "edits": case.get("edits", [])}
+            "target": case["target"], "probes": case.get("probes", []),
+            "edits": case.get("edits", [])}
     check_case(base, report)
     return found[0] if found else None
